@@ -237,6 +237,68 @@ async def retry_after_failed_save(ctx, nodes: dict, workdir: str, index: int) ->
     ctx.case(("retry", index, json.dumps(snap(nodes), sort_keys=True, default=str)), sample=None)
 
 
+def overlapping_saves(ctx, nodes: dict, workdir: str, index: int, yields: int, grow: int) -> None:
+    """save() is called again while an earlier save() of the same Persistence object is still in flight (the application
+    saves after a change while the periodic save is running), the registry having GROWN in between.  Both calls return
+    normally, so afterwards the file must load to the registry as it was when the LAST call was made.  Run on the virtual
+    loop with an inline executor: every file operation completes in program order, so the outcome is a function of the
+    code, not of thread timing."""
+    from aiomysensors.model.node import Child, Node
+    from aiomysensors.persistence import Persistence
+
+    from ..vloop import run_virtual
+
+    path = os.path.join(workdir, f"overlap{index}.json")
+    case = {"origin": {"kind": "overlapping-saves", "index": index, "yields": yields, "grow": grow}, "registry": snap(nodes)}
+    state: dict = {}
+
+    async def scenario() -> None:
+        import asyncio
+
+        persistence = Persistence(nodes, path)
+        first = asyncio.ensure_future(persistence.save())
+        for _ in range(yields):
+            await asyncio.sleep(0)
+        state["first_done_early"] = first.done()
+        free = [n for n in range(1, 255) if n not in nodes]
+        for k in range(grow):
+            nid = free[(index * 7 + k * 13) % len(free)]
+            nodes[nid] = Node(nid, 17, "2.1", children={0: Child(0, 6, description=f"added {k}", values={0: "20.5"})},
+                              sketch_name=f"grown while saving {k}")
+        state["want"] = typed(snap(nodes))
+        await persistence.save()
+        await first
+
+    try:
+        result, _loop = run_virtual(scenario)
+    except Exception as exc:  # noqa: BLE001
+        ctx.violation("save-raises", f"overlapping saves raised {type(exc).__name__}: {exc!s:.100}", case)
+        return
+    if isinstance(result, BaseException):
+        ctx.inconclusive.append(f"overlapping-saves scenario stopped: {result!r:.100}")
+        return
+    ctx.case(("overlap", index, yields, grow, json.dumps(case["registry"], sort_keys=True, default=str)), sample=None)
+    ctx.obs("overlap:first-save-in-flight" if not state["first_done_early"] else "overlap:first-save-finished-before-second")
+    ctx.clause("overlapping-saves")
+    loaded: dict = {}
+
+    async def load() -> None:
+        await Persistence(loaded, path).load()
+
+    try:
+        arun(load())
+    except Exception as exc:  # noqa: BLE001
+        ctx.violation("overlapping-saves-garble-file", f"two overlapping saves (second {yields} loop iterations after the first, "
+                                                        f"{grow} nodes added in between) left a file load rejects: "
+                                                        f"{type(exc).__name__}: {exc!s:.100}", case)
+        return
+    diff = first_difference(state["want"], typed(snap(loaded)))
+    if diff:
+        ctx.violation("overlapped-save-not-written", f"a save() called {yields} loop iterations into an earlier save returned "
+                                                      f"normally but the file does not hold the registry it was called with "
+                                                      f"(differs at {diff})", case)
+
+
 def constructed(rng):
     from aiomysensors.model.node import Child, Node
 
@@ -300,6 +362,9 @@ def run(ctx) -> None:
                 arun(roundtrip(ctx, constructed(rng), workdir, {"kind": "constructed", "index": i}))
             for i in range(ctx.pick(60, 1500) // ctx.shard_count + 3):
                 arun(retry_after_failed_save(ctx, constructed(rng), workdir, i))
+            for i in range(ctx.pick(90, 3000) // ctx.shard_count + 2):
+                nodes = constructed(rng) if i % 3 else big_registry(rng, rng.choice([20, 120]), rng.choice([2, 10]), 2)
+                overlapping_saves(ctx, nodes, workdir, i, yields=i % 9, grow=rng.choice([1, 1, 2, 5]))
             # scale: whole networks (up to 256 nodes x 40 children x 20 values: files of several MB)
             sizes = [(256, 3, 2), (40, 40, 5)] + ([(256, 40, 20), (100, 100, 10)] if not ctx.quick else [])
             for i, (n, c, v) in enumerate(sizes):
